@@ -27,5 +27,5 @@ def run(chk, args):
         # player counts beyond 6: 2^n passes 64 (seeds C04-d, C08-d: a 64-bit key over coalitions silently wraps there)
         {"family": "sa", "ns": "7,8", "count": 3 if q else 20, "length": 10},
         # 2^n = 512 (seed C01-e: a uint8 cast loses the players from 8 upwards); n = 10 in the thorough tier
-        {"family": "sa", "ns": "9" if q else "9,10", "count": 2 if q else 6, "length": 6},
+        {"family": "sa", "ns": "9", "count": 2 if q else 6, "length": 6},      # (the definitional best-partition oracle is too slow for TLC at n = 10)
     ])
